@@ -38,6 +38,15 @@ CLAIMS["C14"] = (
     "Runtime::renum dominate. Behavioural identity of the renumbered program is not decided.",
     "writer/reader table agreement (parser x codegen x visitor) + provenance + guard dominance")
 
+CLAIMS["C04"] = (
+    "decides cache validity as effects: the writers of the stored program are enumerated from "
+    "MIR (field private to its module) and must equal the reviewed set; a may-analysis over "
+    "(dirty known true, program mutated) per mutating function finds no return with a pending "
+    "unflagged mutation; dirty is cleared only next to a full recompile; the recompile clears "
+    "every address-bearing field (stack, functions, cont) and re-seats pc/entry/tr; from the VM "
+    "only DELETE/RENUM/NEW reach a mutator. Equality of RUN transcripts is not decided.",
+    "who-may-write + must-write dataflow (effect analysis) on MIR")
+
 NOT_APPLICABLE = {}
 
 
